@@ -1386,6 +1386,44 @@ namespace bloch::runtime {
             if (obj.use_count() - 1 > traced[obj.get()])
                 markObject(obj);
         }
+        // An unreachable object that owns qubits or tracked state is not reclaimed here: it is
+        // destroyed in the ordinary way (destructor, reset, tracked outcome) when its last owner
+        // goes. Whatever it still refers to therefore has to stay intact, and while the program
+        // is running so does everything that still refers to it: clearing such a referrer would
+        // destroy the object at whatever moment the collector happened to run. Those referrers
+        // are reclaimed by the collection at the end of the run instead.
+        std::unordered_set<const Object*> kept;
+        for (const auto& obj : objects) {
+            if (!obj->marked && obj->cls && obj->cls->hasTrackedFields)
+                kept.insert(obj.get());
+        }
+        if (!m_stopGc.load()) {
+            auto refersToKept = [&kept](const Object& o) {
+                for (const auto& f : o.fields) {
+                    if (f.objectValue && kept.count(f.objectValue.get()))
+                        return true;
+                    for (const auto& e : f.objectArray) {
+                        if (e && kept.count(e.get()))
+                            return true;
+                    }
+                }
+                return false;
+            };
+            bool grew = !kept.empty();
+            while (grew) {
+                grew = false;
+                for (const auto& obj : objects) {
+                    if (!obj->marked && !kept.count(obj.get()) && refersToKept(*obj)) {
+                        kept.insert(obj.get());
+                        grew = true;
+                    }
+                }
+            }
+        }
+        for (const auto& obj : objects) {
+            if (kept.count(obj.get()))
+                markObject(obj);
+        }
         // Sweep unmarked non-tracked objects
         std::vector<std::shared_ptr<Object>> unreachable;
         for (auto& obj : objects) {
